@@ -165,6 +165,39 @@ def gnb_jobs(ctx, spec, cfg, cap=3, m=2, timeout=600, mem_mb=8000, tagx=''):
     return jobs, g
 
 
+def cap_jobs(ctx, spec, cfg, ops=(0, 1, 2, 3, 4, 6), timeout=600, mem_mb=10000, checks='functional', action=None, tagx=''):
+    """Capacity-invariant inductive-step jobs, one per API call (+ witness twins)."""
+    kw = {}
+    if action is not None:
+        kw['action'] = action
+        kw['prologue'] = 'extern int vp_rej_req;'
+    wd, g = _prep(ctx, spec, cfg, 'cap' + tagx, extra_options=ALLOC_OPTS, **kw)
+    jobs = []
+    if not g.ok:
+        return jobs, g
+    names = ['yyrestart', 'yy_switch_to_buffer', 'yypush_buffer_state', 'yypop_buffer_state', 'yy_create_buffer+switch', 'yylex(empty source)', 'yylex_destroy+yyrestart']
+    for op in ops:
+        if op == 6 and cfg.api != 'nr':
+            continue
+        for w in (False, True):
+            nm = 'op%d%s' % (op, '_w' if w else '')
+            src = os.path.join(wd, 'cap_%s.c' % nm)
+            with open(src, 'w') as fh:
+                fh.write(H.cap_harness(g, cfg, spec, op=op, witness=w))
+            b = scanner_bounds(g, 1, 0)
+            b.update({'popall': 6, 'move': 3, 'grow': 3})
+            j = cbmc.Job('cap%s_%s_%s_%s' % (tagx, spec.name, cfg.name, nm), wd, [src], b,
+                         includes=[wd, H.HDIR], harness_bound=None, timeout=timeout, mem_mb=mem_mb, gen_file=g.cpath, checks=checks,
+                         expect='witness' if w else 'proved',
+                         meta=dict(engine='CAP', entry=spec.name, config=cfg.name + ('+REJECT' if tagx == 'rej' else ''),
+                                   bound='one call of %s from a fresh scanner or from an arbitrary buffer stack of depth 1-2 with recorded sizes 1..40 (YY_BUF_SIZE 8) and arbitrary ledger sizes satisfying the capacity invariant' % names[op],
+                                   flex_input=g.ltext, flex_args=g.args))
+            jobs.append(j)
+    ctx.functions.update(['yyrestart', 'yy_create_buffer', 'yy_switch_to_buffer', 'yypush_buffer_state', 'yypop_buffer_state',
+                          'yylex_destroy', 'yyensure_buffer_stack', 'yy_init_buffer', 'yy_flush_buffer', 'yy_delete_buffer'])
+    return jobs, g
+
+
 def g2_jobs(ctx, spec, cfg, cap=3, m=2, nops=1, timeout=600, mem_mb=8000, tagx='', extra_options=()):
     """yyinput()/yyunput() unit obligations from an arbitrary in-action buffer state (+ witness twin)."""
     wd, g = _prep(ctx, spec, cfg, 'g2' + tagx, extra_options=ALLOC_OPTS + ['never-interactive'] + list(extra_options))
